@@ -156,11 +156,3 @@ Proof.
   - mixedm py_trunc.
 Qed.
 
-(* clip is idempotent for every mix of argument types (and any order of the bounds) *)
-Lemma clip_idem_general x lo hi : is_ok x = true -> is_ok lo = true -> is_ok hi = true ->
-  py_clip (py_clip x lo hi) lo hi = py_clip x lo hi.
-Proof.
-  intros Hx Hlo Hhi.
-  destruct x as [x|x|], lo as [lo|lo|], hi as [hi|hi|]; try discriminate;
-    unfold py_clip, py_max, py_min; nunf; qb; try reflexivity; try lra.
-Qed.
